@@ -838,7 +838,7 @@ class Light(SystemWideDevice, DevicePositionMixin):
 
         stack = []
         for i, entry in enumerate(self.stack):
-            if entry.priority <= priority and entry.key <= key:
+            if entry.priority < priority or (entry.priority == priority and entry.key <= key):
                 stack = self.stack[i:]
                 break
         return self._get_color_and_fade(stack, 0)[0]
